@@ -76,6 +76,20 @@ func Corpus() *Env {
 		req("d", R("Defaults")), opt("od", R("Defaults")), opt("ds", A(R("Defaults")))}})
 	add(&Decl{Name: "Tree", Kind: "record", Fields: []Field{
 		req("v", P("i32")), req("kids", A(R("Tree"))), opt("parent", R("Tree")), opt("byName", M(R("Tree")))}})
+	// every defaulted field is also optional (the generator must still emit and call the
+	// default-population code), alone and as a required nested record
+	add(&Decl{Name: "OptDefaults", Kind: "record", Fields: []Field{
+		{Name: "od", Ty: P("i32"), Optional: true, Default: VI32(5), DefJSON: `5`},
+		{Name: "os", Ty: P("str"), Optional: true, Default: VStr("x"), DefJSON: `"x"`},
+		opt("plain", P("bool"))}})
+	add(&Decl{Name: "NeedsOptDefaults", Kind: "record", Fields: []Field{req("o", R("OptDefaults")), opt("oo", R("OptDefaults"))}})
+	// a chain of single includes in which several records extend the same base with their own
+	// required fields (required-field lists are built by appending to the included list)
+	add(&Decl{Name: "Rq2", Kind: "record", Fields: []Field{req("r1", P("i32")), req("r2", P("str"))}})
+	add(&Decl{Name: "Bq", Kind: "record", Includes: []string{"Rq2"}, Fields: []Field{req("b1", P("i32"))}})
+	add(&Decl{Name: "Mq1", Kind: "record", Includes: []string{"Bq"}, Fields: []Field{req("m1", P("str")), req("k1", P("i32"))}})
+	add(&Decl{Name: "Mq2", Kind: "record", Includes: []string{"Bq"}, Fields: []Field{req("m2", P("str"))}})
+	add(&Decl{Name: "Mq3", Kind: "record", Includes: []string{"Bq"}, Fields: []Field{req("m3", P("bool")), opt("o3", P("str"))}})
 	add(&Decl{Name: "MapKeys", Kind: "record", Fields: []Field{req("m", M(P("str"))), opt("mi", M(P("i32")))}})
 	return e
 }
